@@ -66,4 +66,183 @@ theorem beginFile_ok {P : Params} (hc : CodecOk P.codec) {s : Proc} {g : Ghost} 
       simpa [Proc.fe, feBegin] using hfi
   · simp [Proc.fe, feBegin]
 
+/-! ### `append` -/
+
+/-- termination measure of the append loop: 3 · bytes left, plus 1 when a block has to be obtained, plus 2 when the open
+block is full -/
+def curRank (cur : Option Blk) (B : Nat) : Nat :=
+  match cur with
+  | none => 1
+  | some c => if c.data.length = B then 2 else 0
+
+theorem PInv.setFront {P : Params} {s s' : Proc} {g : Ghost} {held held' : Nat} {W : WSt} (h : PInv P s g held W)
+    (hbe : Back P s g (g.F P) W → Back P s' g (g.F P) W)
+    (hacct : Acct s' g (boolNat s'.blkCurrent.isSome + held'))
+    (hfe : FrontInv P.B s'.fe g.front s'.w.inodes.length) : PInv P s' g held' W :=
+  ⟨hbe h.back, hacct, hfe, h.finNoPend⟩
+
+theorem appendGo_ok {P : Params} (hP : P.ans = serialAns) (hc : CodecOk P.codec) (hB : P.B < 2 ^ 24) (hBpos : 0 < P.B) :
+    ∀ (fuel : Nat) (s : Proc) (data : Bytes) (g : Ghost) (W : WSt),
+      PInv P s g 0 W → s.beginCalled = true → g.fin = false →
+      (data ≠ [] ∨ s.blkCurrent.isSome = true) →
+      (data ≠ [] ∨ ∀ c, s.blkCurrent = some c → c.data ≠ []) →
+      3 * data.length + curRank s.blkCurrent P.B < fuel →
+      ∃ s' g' W' em, appendGo P fuel s data = .ok s' ∧ feAppendGo P.B fuel s.fe data = some (s'.fe, em) ∧
+        g'.front = g.front ++ em ∧ PInv P s' g' 0 W' ∧ g'.fe = g.fe ∧ g'.fin = false ∧
+        s'.w.inodes.length = s.w.inodes.length ∧ s'.maxBacklog = s.maxBacklog ∧
+        (∀ c, s'.blkCurrent = some c → c.data ≠ []) := by
+  intro fuel
+  induction fuel with
+  | zero => intro s data g W _ _ _ _ _ hf; omega
+  | succ fuel ih =>
+    intro s data g W h hbc hfin hpre hne hf
+    have hbc' : s.fe.beginCalled = true := hbc
+    unfold appendGo feAppendGo
+    by_cases hd0 : data.length = 0
+    · -- the loop is left
+      have hdnil : data = [] := List.eq_nil_of_length_eq_zero hd0
+      rw [if_pos hd0, if_pos hd0]
+      cases hcur : s.blkCurrent with
+      | none => rcases hpre with hp | hp
+                · exact absurd hdnil hp
+                · rw [hcur] at hp; cases hp
+      | some c =>
+        have hcne : c.data ≠ [] := by
+          rcases hne with hp | hp
+          · exact absurd hdnil hp
+          · exact hp c hcur
+        have hfec : s.fe.blkCurrent = some c := hcur
+        simp only [hfec]
+        by_cases hfull : c.data.length = P.B
+        · rw [if_pos hfull, if_pos hfull]
+          have hfi := h.feInv.emit hbc' c hfec hcne
+          have hacct : Acct { s with blkCurrent := none } g (boolNat ({ s with blkCurrent := none } : Proc).blkCurrent.isSome + 0 + 1) := by
+            have := h.acct
+            unfold Acct at *
+            simp only [hcur, Option.isSome_some, Option.isSome_none, boolNat] at this ⊢
+            simpa using this
+          obtain ⟨s', he, hfe', hil, hmb, hinv'⟩ := PInv.submit hP (s := { s with blkCurrent := none }) (held := 0) c { h.back with } hacct hfi hfin
+          refine ⟨s', _, W, [c], he, ?_, rfl, hinv', rfl, hfin, hil, hmb, ?_⟩
+          · rw [hfe']; rfl
+          · intro c' hc'
+            have : s'.fe.blkCurrent = none := by rw [hfe']; rfl
+            have h2 : s'.blkCurrent = none := this
+            rw [h2] at hc'; cases hc'
+        · rw [if_neg hfull, if_neg hfull]
+          refine ⟨s, g, W, [], rfl, rfl, by simp, h, rfl, hfin, rfl, rfl, ?_⟩
+          intro c' hc'
+          rw [hcur] at hc'; cases hc'; exact hcne
+    · -- bytes left
+      have hdne : data ≠ [] := fun he => hd0 (by simp [he])
+      rw [if_neg hd0, if_neg hd0]
+      cases hcur : s.blkCurrent with
+      | none =>
+        have hfec : s.fe.blkCurrent = none := hcur
+        simp only [hfec]
+        -- a new block
+        obtain ⟨s1, g1, W1, hg, h1, fr1⟩ := getNewBlock_ok hP hc hB h
+        rw [hg]
+        simp only
+        have hcur1 : s1.blkCurrent = none := by rw [blkCurrent_of_fe fr1.fe]; exact hcur
+        have hbc1 : s1.beginCalled = true := by
+          have := congrArg Front.beginCalled fr1.fe
+          simp only [Proc.fe] at this; rw [this]; exact hbc
+        have hfi1 : FrontInv P.B s1.fe g1.front s1.w.inodes.length := h1.feInv
+        have hfin1 : g1.fin = false := by rw [fr1.fin]; exact hfin
+        have h2 : PInv P { s1 with blkCurrent := some { flags := s1.blkFlags, inode := s1.inode, index := s1.blkIndex },
+                                   blkIndex := s1.blkIndex + 1, blkFlags := clearFlag s1.blkFlags blkFirstBlock } g1 0 W1 := by
+          refine h1.setFront (fun hb => { hb with }) ?_ ?_
+          · have := h1.acct
+            unfold Acct at *
+            simp only [hcur1, Option.isSome_none, Option.isSome_some, boolNat] at this ⊢
+            simpa using this
+          · exact hfi1.newBlock hbc1 hcur1
+        have hm : 3 * data.length + curRank (some ({ flags := s1.blkFlags, inode := s1.inode, index := s1.blkIndex } : Blk)) P.B < fuel := by
+          have : curRank s.blkCurrent P.B = 1 := by rw [hcur]; rfl
+          have e : curRank (some ({ flags := s1.blkFlags, inode := s1.inode, index := s1.blkIndex } : Blk)) P.B = 0 := by
+            simp only [curRank]
+            rw [if_neg]
+            simp; omega
+          omega
+        obtain ⟨s', g', W', em, ha, hfa, hfront, hinv', hgfe, hgfin, hil, hmb, hcne'⟩ :=
+          ih _ data g1 W1 h2 hbc1 hfin1 (Or.inl hdne) (Or.inl hdne) hm
+        refine ⟨s', g', W', em, ha, ?_, ?_, hinv', ?_, hgfin, ?_, ?_, hcne'⟩
+        · rw [← hfa]
+          have e := fr1.fe
+          simp only [Proc.fe] at e ⊢
+          simp only [Front.mk.injEq] at e
+          obtain ⟨e1, e2, e3, e4, e5⟩ := e
+          rw [e1, e2, e3, e4]
+        · rw [hfront, fr1.front]
+        · rw [hgfe, fr1.gfe]
+        · rw [hil]; exact fr1.inodes
+        · rw [hmb]; exact fr1.maxBacklog
+      | some c =>
+        have hfec : s.fe.blkCurrent = some c := hcur
+        simp only [hfec]
+        obtain ⟨id, hbz⟩ := h.feInv.busy hbc'
+        have hcle : c.data.length ≤ P.B := (hbz.cur c hfec).2.2.1
+        by_cases hdiff : P.B - c.data.length = 0
+        · -- the open block is full: submit it
+          rw [if_pos hdiff, if_pos hdiff]
+          have hfull : c.data.length = P.B := by omega
+          have hcne : c.data ≠ [] := fun he => by simp [he] at hfull; omega
+          have hfi := h.feInv.emit hbc' c hfec hcne
+          have hacct : Acct { s with blkCurrent := none } g (boolNat ({ s with blkCurrent := none } : Proc).blkCurrent.isSome + 0 + 1) := by
+            have := h.acct
+            unfold Acct at *
+            simp only [hcur, Option.isSome_some, Option.isSome_none, boolNat] at this ⊢
+            simpa using this
+          obtain ⟨s1, he, hfe1, hil1, hmb1, hinv1⟩ := PInv.submit hP (s := { s with blkCurrent := none }) (held := 0) c { h.back with } hacct hfi hfin
+          rw [he]
+          simp only
+          have hcur1 : s1.blkCurrent = none := by
+            have : s1.fe.blkCurrent = none := by rw [hfe1]; rfl
+            exact this
+          have hbc1 : s1.beginCalled = true := by
+            have : s1.fe.beginCalled = true := by rw [hfe1]; exact hbc
+            exact this
+          have hm : 3 * data.length + curRank s1.blkCurrent P.B < fuel := by
+            have : curRank s.blkCurrent P.B = 2 := by rw [hcur]; simp [curRank, hfull]
+            rw [hcur1]; simp only [curRank]; omega
+          obtain ⟨s', g', W', em, ha, hfa, hfront, hinv', hgfe, hgfin, hil, hmb, hcne'⟩ :=
+            ih s1 data _ W hinv1 hbc1 hfin (Or.inl hdne) (Or.inl hdne) hm
+          refine ⟨s', g', W', c :: em, ha, ?_, ?_, hinv', hgfe, hgfin, ?_, ?_, hcne'⟩
+          · rw [hfe1] at hfa
+            have : ({ s with blkCurrent := none } : Proc).fe = { s.fe with blkCurrent := none } := rfl
+            rw [this] at hfa
+            rw [hfa]
+          · rw [hfront]; simp
+          · rw [hil, hil1]
+          · rw [hmb, hmb1]
+        · -- copy bytes into the open block
+          rw [if_neg hdiff, if_neg hdiff]
+          have hn1 : 1 ≤ min (P.B - c.data.length) data.length := by
+            have : 0 < data.length := Nat.pos_of_ne_zero hd0
+            omega
+          have hfi := h.feInv.fill hbc' c hfec (data.take (min (P.B - c.data.length) data.length))
+            (by simp only [List.length_take]; omega)
+          have h2 : PInv P { s with blkCurrent := some { c with data := c.data ++ data.take (min (P.B - c.data.length) data.length) } } g 0 W := by
+            refine h.setFront (fun hb => { hb with }) ?_ hfi
+            have := h.acct
+            unfold Acct at *
+            simp only [hcur, Option.isSome_some] at this ⊢
+            exact this
+          have hm : 3 * (data.drop (min (P.B - c.data.length) data.length)).length +
+              curRank (some ({ c with data := c.data ++ data.take (min (P.B - c.data.length) data.length) } : Blk)) P.B < fuel := by
+            have hr : curRank (some ({ c with data := c.data ++ data.take (min (P.B - c.data.length) data.length) } : Blk)) P.B ≤ 2 := by
+              simp only [curRank]; split <;> omega
+            simp only [List.length_drop]
+            omega
+          obtain ⟨s', g', W', em, ha, hfa, hfront, hinv', hgfe, hgfin, hil, hmb, hcne'⟩ :=
+            ih _ (data.drop (min (P.B - c.data.length) data.length)) g W h2 hbc hfin (Or.inr rfl)
+              (Or.inr (fun c' hc' => by
+                simp only [Option.some.injEq] at hc'
+                rw [← hc']
+                intro he
+                have := congrArg List.length he
+                simp only [List.length_append, List.length_take, List.length_nil] at this
+                omega)) hm
+          exact ⟨s', g', W', em, ha, hfa, hfront, hinv', hgfe, hgfin, hil, hmb, hcne'⟩
+
 end Sqfs.BlockProc
